@@ -361,7 +361,7 @@ func runC13Case(c *Ctx, idx int) *CaseResult {
 func init() {
 	register(&Check{
 		ID: "C13", Level: "exploration",
-		Rule: "rule sets (2-12 rules) into which 1-3 counted pure method calls T.Tag(id,...) are injected, each with identical text in k>=1 rules (either operand of && / ||, inside arithmetic, in then right-hand sides), run lengths 1-60 cycles, all four build pipelines; oracle = calls logged per id <= 1 + invalidation events from the validated trace (executed assignments overlapping a variable of the call, Forget/Changed naming it; generous overlap: a selector matches any element); non-trivial = distinct (program, state, call text) where the text occurs in >=2 rules, the run has >=3 cycles and the method was called",
+		Rule: "rule sets (2-12 rules) into which 1-3 counted pure method calls T.Tag(id,...) are injected, each with identical text in k>=1 rules (either operand of && / ||, inside arithmetic, in then right-hand sides), run lengths 1-60 cycles, all four build pipelines; oracle = calls logged per id <= 1 + invalidation events from the validated trace (executed assignments overlapping a variable of the call, Forget/Changed naming it; generous overlap: a selector matches any element); non-trivial = distinct (program, state, call text) where the text occurs in >=2 rules, the run has >=3 cycles and the method was called; statement calls that are handed a pointer to a fact (no invalidation event); appended cases in which one boolean counted call is the WHOLE condition of two rules (plain / negated) and an operand in all others",
 		Assume: []string{"methods never fail (a failed evaluation is legitimately retried)", "the generous overlap reading can miss an unnecessary re-evaluation between sibling elements but never accuses correct code"},
 		Cases:  func(t string) int { return tierN(1500, 60000)(t) + tierN(200, 6000)(t) },
 		Run:    runC13Case,
